@@ -139,6 +139,31 @@ pub fn decrypt_stream(body: &[u8], key: &[u8; 32], nonce: &[u8; 8], c: &Consts, 
     Ok(out)
 }
 
+/// One brotli stream decoded as RFC 7932 describes it and nothing more (FORMAT.md: "a brotli compressed block"): the
+/// decoder is restricted to the standard (`new_strict`), as the reference C library and every other implementation is
+/// unless asked otherwise; the "large window" extension is not RFC 7932.
+pub fn rfc7932_decode(stream: &[u8], expected_len: usize) -> Result<Vec<u8>, String> {
+    use brotli::writer::StandardAlloc;
+    use brotli::{BrotliDecompressStream, BrotliResult, BrotliState};
+    let mut state = BrotliState::new_strict(StandardAlloc::default(), StandardAlloc::default(), StandardAlloc::default());
+    let mut out = vec![0u8; expected_len + 1];
+    let (mut avail_in, mut in_off) = (stream.len(), 0usize);
+    let (mut avail_out, mut out_off) = (out.len(), 0usize);
+    let mut total = 0usize;
+    match BrotliDecompressStream(&mut avail_in, &mut in_off, stream, &mut avail_out, &mut out_off, &mut out, &mut total, &mut state) {
+        BrotliResult::ResultSuccess => {
+            if avail_in != 0 {
+                return Err(format!("{avail_in} bytes after the end of the brotli stream"));
+            }
+            out.truncate(out_off);
+            Ok(out)
+        }
+        BrotliResult::ResultFailure => Err(format!("not an RFC 7932 stream (first bytes {:02x?})", &stream[..stream.len().min(4)])),
+        BrotliResult::NeedsMoreInput => Err("truncated brotli stream".to_string()),
+        BrotliResult::NeedsMoreOutput => Err(format!("more than the {expected_len} bytes the footer announces")),
+    }
+}
+
 pub fn decompress_stream(s: &[u8], c: &Consts, d: &mut Decoded) -> Result<Vec<u8>, String> {
     if s.len() < 4 {
         return Err("no compression footer".into());
@@ -161,9 +186,8 @@ pub fn decompress_stream(s: &[u8], c: &Consts, d: &mut Decoded) -> Result<Vec<u8
     let mut pos = 0usize;
     for (i, sz) in sizes.iter().enumerate() {
         let blk = s.get(pos..pos + *sz as usize).ok_or("compressed block beyond stream")?;
-        let mut dec = vec![];
-        brotli::BrotliDecompress(&mut &blk[..], &mut dec).map_err(|e| format!("brotli block {i}: {e}"))?;
         let want = if i + 1 < sizes.len() { c.block } else { last as usize };
+        let dec = rfc7932_decode(blk, want).map_err(|e| format!("brotli block {i}: {e}"))?;
         if dec.len() != want {
             return Err(format!("block {i}: {} bytes, footer says {want}", dec.len()));
         }
